@@ -703,6 +703,12 @@ def folded_returns(cfg, func, atom_eval, limit=4000, subst=None, follow_exc=Fals
                 for x in ast.walk(t):
                     if isinstance(x, ast.Name):
                         env.pop(x.id, None)
+        if n.kind == "stmt" and isinstance(n.ast, ast.AugAssign) and isinstance(n.ast.target, ast.Name):
+            import copy as _c
+            cur = env.get(n.ast.target.id, ast.Name(id=n.ast.target.id, ctx=ast.Load()))
+            env = dict(env)
+            env[n.ast.target.id] = ast.BinOp(left=_c.deepcopy(cur), op=n.ast.op,
+                                             right=_Fold(env, tables, subst).visit(_c.deepcopy(n.ast.value)))
         if n.kind == "cond":
             v = atom_eval(n.exprs[0])
             if v is None:
